@@ -252,13 +252,21 @@ func sortsTail(name string, sorts []string) []string {
 	return nil
 }
 
-func (x *Exec) jsonArrKind(b Val, es string) string { return app(x.jsonFn("akind", []string{es}, "Int"), b.Arr, b.Off, b.Len) }
-func (x *Exec) jsonArrLen(b Val, es string) string  { return app(x.jsonFn("alen", []string{es}, "Int"), b.Arr, b.Off, b.Len) }
+func (x *Exec) jsonArrKind(b Val, es string) string {
+	return app(x.jsonFn("akind", []string{es}, "Int"), b.Arr, b.Off, b.Len)
+}
+func (x *Exec) jsonArrLen(b Val, es string) string {
+	return app(x.jsonFn("alen", []string{es}, "Int"), b.Arr, b.Off, b.Len)
+}
 func (x *Exec) jsonArrElem(b Val, es string, i string) string {
 	return app(x.jsonFn("aelem", []string{es}, es), b.Arr, b.Off, b.Len, i)
 }
-func (x *Exec) jsonObjKind(b Val, ks, vs string) string { return app(x.jsonFn("okind", []string{ks, vs}, "Int"), b.Arr, b.Off, b.Len) }
-func (x *Exec) jsonObjCard(b Val, ks, vs string) string { return app(x.jsonFn("ocard", []string{ks, vs}, "Int"), b.Arr, b.Off, b.Len) }
+func (x *Exec) jsonObjKind(b Val, ks, vs string) string {
+	return app(x.jsonFn("okind", []string{ks, vs}, "Int"), b.Arr, b.Off, b.Len)
+}
+func (x *Exec) jsonObjCard(b Val, ks, vs string) string {
+	return app(x.jsonFn("ocard", []string{ks, vs}, "Int"), b.Arr, b.Off, b.Len)
+}
 func (x *Exec) jsonObjHas(b Val, ks, vs string, k string) string {
 	return app(x.jsonFn("ohas", []string{ks, vs}, "Bool"), b.Arr, b.Off, b.Len, k)
 }
